@@ -149,6 +149,19 @@ func (in *Exec) addPC(t *Term) {
 	}
 }
 
+// constrainFresh adds a constraint on a fresh variable that is satisfiable by construction (witness value given):
+// no solver call and no decision are needed; the cached model is extended with the witness.
+func (in *Exec) constrainFresh(v *Term, witness uint64, c *Term) {
+	if in.concreteModel != nil {
+		return
+	}
+	if in.modelOK {
+		in.model[v.Name] = witness
+		in.memo = nil
+	}
+	in.addPC(c)
+}
+
 func (in *Exec) evalModel(t *Term) uint64 {
 	if in.memo == nil {
 		in.memo = map[*Term]uint64{}
